@@ -135,6 +135,16 @@ void simk_raise(int sig, int thread)
 {
 	if (sig <= 0 || sig >= NSIGS || thread < 0 || thread >= MAXTHR)
 		return;
+	/* a process-directed signal goes to some thread that can take it: if the
+	 * named one is gone or parked (joining, waiting for a lock or a flag) and
+	 * another one runs or waits with the signal unblocked, that one gets it */
+	if (!simk_thread_takes_signals(thread)) {
+		for (int t = 0; t < simk_nthreads() && t < MAXTHR; t++)
+			if (simk_thread_takes_signals(t) && !sigismember(&tmask[t], sig)) {
+				thread = t;
+				break;
+			}
+	}
 	tr("\"e\":\"SigGen\",\"sig\":%d,\"x\":%d}", sig, thread);
 	tpend[thread][sig] = 1;
 	simk_progress();
